@@ -112,6 +112,12 @@ func (am *YAMLAccountManager) Update(account hotline.Account, newLogin string) e
 
 	// If the login has changed, rename the account file.
 	if account.Login != newLogin {
+		// Renaming onto an existing login would overwrite (destroy) that account, and a crash after the rename
+		// below would leave its file holding the renamed account's old contents.
+		if _, exists := am.accounts[newLogin]; exists {
+			return fmt.Errorf("cannot rename account %s: login %s already exists", account.Login, newLogin)
+		}
+
 		err := os.Rename(
 			filepath.Join(am.accountDir, path.Join("/", account.Login)+".yaml"),
 			filepath.Join(am.accountDir, path.Join("/", newLogin)+".yaml"),
